@@ -5,6 +5,7 @@ import DicomModel.Props.C04
 import DicomModel.Lemmas.NormCanon
 import DicomModel.Lemmas.NormKeepCanon
 import DicomModel.Lemmas.NormImplicit
+import DicomModel.Lemmas.NormOw
 /-
 C01 — Data set write-then-read round trip in every writable transfer syntax.
 
@@ -706,6 +707,34 @@ theorem tree_rt_implicit_dict (dict : Tag → Option VR) (t : Elems)
       readDataset .implicitLE dict bs = .ok (Norm.normElems .implicitLE (Norm.dictElems dict t)) :=
   Norm.write_read_implicit dict t hd hwf hsorted
 
+/-- **Round trip with 8-bit samples held as bytes under OW** (legal content of a word VR; the writer re-packs
+them into 16-bit words, dicom-rs fix 457c39a): if the re-packed data set `Norm.owElems t` is well-formed
+(`Norm.validFor_ow_u8`: any bytes qualify), writing `t` succeeds and reading back yields the normal form of
+the re-packed data set — under OW the words `lo + 256·hi`, whose in-memory bytes are the original bytes, in
+all three syntaxes including Big Endian. For data sets without such elements `owElems t = t` and this is
+`tree_rt_undefined`. -/
+theorem tree_rt_undefined_ow (ts : Syntax) (dict : Tag → Option VR) (t : Elems)
+    (hd : Ref.dictOk ts dict = true) (hwf : Norm.WfElems ts dict (Norm.owElems t))
+    (hsorted : Ref.sortedElems t = true) :
+    ∃ bs, writeDataset ts .setUndefined t = .ok bs ∧
+      readDataset ts dict bs = .ok (Norm.normElems ts (Norm.owElems t)) :=
+  Norm.write_read_ow ts dict t hd hwf hsorted
+
+/-- the regression witness of that fix, Explicit VR Big Endian: (7FE0,0010) OW `U8([1,2,3,4])` is written
+as the words 0x0201 0x0403 in big-endian byte order and read back as `U16([513, 1027])`, whose little-endian
+in-memory bytes are 01 02 03 04 (kernel evaluation of the model writer and reader) -/
+def owWitness : Elems := .cons (.prim ⟨0x7FE0, 0x0010⟩ .OW 4 (.u8 [1, 2, 3, 4])) .nil
+
+theorem ow_witness_round_trips :
+    writeDataset .explicitBE .setUndefined owWitness
+      = .ok [0x7F, 0xE0, 0x00, 0x10, 79, 87, 0, 0, 0, 0, 0, 4, 2, 1, 4, 3] ∧
+    ((writeDataset .explicitBE .setUndefined owWitness).toOption.bind fun bs =>
+        (readDataset .explicitBE (fun _ => none) bs).toOption.map Elems.tokens)
+      = some [.elementHeader ⟨⟨0x7FE0, 0x0010⟩, .OW, 4⟩, .primitiveValue (.u16 [513, 1027])] := by
+  constructor
+  · rfl
+  · decide +kernel
+
 /-- non-vacuity / end-to-end on a concrete nested tree (sequence with two items, a nested sequence, an
 empty sequence, a pixel sequence with an odd and an empty fragment, text with padding, numbers):
 the model writer and reader round-trip it in all three syntaxes, and the re-read tree differs only by
@@ -759,5 +788,14 @@ theorem sample_tree_wellformed :
     C04.paddedValue, padTo, textPad, binPad, encodePrimitive, joinBackslash, Ref.tagOk, Ref.sortedElems,
     Ref.sortedFrom, Ref.tagLt, Ref.tagOf, Tag.pixelData, undefinedLen, Norm.strsVrs, Norm.strVrs, Ref.implicitVr,
     sampleDict, C03.ps35, Syntax.explicit, Syntax.bigEndian, enc16, le16, be16]
+
+/-- non-vacuity of `tree_rt_undefined_ow`: the re-packed OW witness is well-formed in Explicit VR Big Endian -/
+theorem ow_witness_wellformed :
+    Norm.WfElems .explicitBE (fun _ => none) (Norm.owElems owWitness) ∧ Ref.sortedElems owWitness = true := by
+  refine ⟨?_, by decide⟩
+  simp [Norm.WfElems, Norm.WfElem, Norm.owElems, Norm.owElem, owWitness, owWords, packWords, Norm.ValidFor,
+    C04.FitsHeader, C04.DsIsOk, C04.ValueAscii, Norm.NumericOk, C04.paddedValue, padTo, binPad, encodePrimitive,
+    Ref.tagOk, Tag.pixelData, undefinedLen, Norm.strsVrs, Norm.strVrs, C03.ps35, Syntax.explicit, Syntax.bigEndian,
+    enc16, be16]
 
 end Dicom.C01
